@@ -104,11 +104,16 @@ def jsonable(v):
     return str(v)
 
 
-def close(a, b, tol=1e-6):
-    """equality of two scalars: exact for symbolic values, relative tolerance for floats (replay oracle)"""
+def close(a, b, tol=1e-6, stol=0.0):
+    """equality of two scalars: exact for symbolic values (or within the absolute+relative tolerance stol when a path folds
+    concrete float arithmetic, which rounds), relative tolerance `tol` for floats (replay oracle)"""
     if isinstance(a, (SR, Dual)) or isinstance(b, (SR, Dual)):
         if isinstance(a, float) and math.isnan(a) or isinstance(b, float) and math.isnan(b):
             return False
+        if stol > 0:
+            d = a - b
+            bound = stol * (1 + abs(b)) if not isinstance(b, SR) else (abs(b) + 1) * stol
+            return (d <= bound) & (d >= -bound)
         return a == b
     a, b = float(a), float(b)
     if math.isnan(a) or math.isnan(b):
@@ -135,6 +140,8 @@ def is_nan(v):
 
 
 def cond_term(c):
+    if isinstance(c, np.ndarray) and c.ndim == 0:
+        c = c.item()
     if isinstance(c, SB):
         return c.e
     if isinstance(c, (bool, np.bool_)):
